@@ -27,6 +27,7 @@ type aliasSig struct {
 	paths []string
 	note  string
 	both  bool // the un-aliased run writes both parameters (aliasing them is not meaningful)
+	any   bool // the un-aliased run writes at least one of the two parameters
 }
 
 func aliasSignature(cfg *Config, fn *ssa.Function, ai, aj int, aliased bool) aliasSig {
@@ -88,6 +89,9 @@ func aliasSignature(cfg *Config, fn *ssa.Function, ai, aj int, aliased bool) ali
 		if wi && wj {
 			sig.both = true
 		}
+		if wi || wj {
+			sig.any = true
+		}
 		sort.Strings(fin)
 		out = append(out, strings.Join(lits, " ∧ ")+" ⇒ "+res+" {"+strings.Join(fin, "; ")+"}")
 	}
@@ -138,6 +142,10 @@ func CheckAlias(cfg *Config, fn *ssa.Function) AliasResult {
 			base := aliasSignature(cfg, fn, i, j, false)
 			if base.note != "" || base.both {
 				r.Skipped++
+				continue
+			}
+			if !base.any {
+				r.Compared++ // neither is written: reading one object through two names cannot change anything
 				continue
 			}
 			al := aliasSignature(cfg, fn, i, j, true)
